@@ -17,10 +17,12 @@
 EXTENDS HugrValidity
 
 CONSTANTS RootInputs,     \* input row of the root Dfg, e.g. <<BoolT, QubitT>>
-          MaxCalls, MaxDepth
+          MaxCalls, MaxDepth,
+          Ops,            \* names of the alphabet operations a configuration uses
+          Features        \* subset of {"load", "nested", "order", "cond", "loop"}: the builder calls a configuration explores
 
-VARIABLES nodes, links, ctxs, done, used, calls, hist
-bvars == <<nodes, links, ctxs, done, used, calls, hist>>
+VARIABLES nodes, links, ctxs, pending, done, used, calls, hist
+bvars == <<nodes, links, ctxs, pending, done, used, calls, hist>>
 
 (* ---- the operation alphabet (wire vocabulary) ---- *)
 CustomOp(name, i, o) == [op |-> "Extension", extension |-> "verif.q", name |-> name, signature |-> FnT(i, o), description |-> "", args |-> <<>>]
@@ -30,7 +32,13 @@ OpH       == CustomOp("H", <<QubitT>>, <<QubitT>>)
 OpMeasure == CustomOp("Measure", <<QubitT>>, <<QubitT, BoolT>>)        \* multi-output, the Bool may stay unused
 OpAlloc   == CustomOp("QAlloc", <<>>, <<QubitT>>)
 OpFree    == CustomOp("QFree", <<QubitT>>, <<>>)
-Alphabet  == {OpNot, OpH, OpMeasure, OpAlloc, OpFree}
+OptB      == GenSumT(<<<<>>, <<BoolT>>>>)                                \* Option(Bool)
+OpSome    == [op |-> "Tag", name |-> "Some", tag |-> 1, variants |-> <<<<>>, <<BoolT>>>>]
+OpNone    == [op |-> "Tag", name |-> "None", tag |-> 0, variants |-> <<<<>>, <<BoolT>>>>]
+OpCont    == [op |-> "Tag", name |-> "Cont", tag |-> 0, variants |-> <<<<BoolT>>, <<>>>>]     \* loop control Sum([[Bool], []]): continue with a Bool
+OpBrk     == [op |-> "Tag", name |-> "Brk", tag |-> 1, variants |-> <<<<BoolT>>, <<>>>>]
+Alphabet  == {OpNot, OpH, OpMeasure, OpAlloc, OpFree, OpSome, OpNone, OpCont, OpBrk}
+StripName(o) == IF o.op = "Tag" THEN [op |-> "Tag", tag |-> o.tag, variants |-> o.variants] ELSE o
 TrueV == [v |-> "Sum", tag |-> 1, typ |-> UnitSumT(2), vs |-> <<>>]
 
 NodeOp(n) == nodes[n + 1].op
@@ -45,20 +53,24 @@ RECURSIVE AncSibB(_, _)
 AncSibB(sp, t) == IF t = 0 THEN -1 ELSE IF NodePar(t) = sp THEN t ELSE AncSibB(sp, NodePar(t))
 RECURSIVE AncestorsB(_)
 AncestorsB(n) == IF n = 0 THEN {0} ELSE {n} \cup AncestorsB(NodePar(n))
+(* the enclosing regions a value may come from: up to and including the nearest function body (no value edge enters a FuncDefn) *)
+RECURSIVE ValueAncB(_)
+ValueAncB(n) == IF n = 0 \/ NodeOp(n).op = "FuncDefn" THEN {n} ELSE {n} \cup ValueAncB(NodePar(n))
 
 (* value wires produced in the region of container c: outputs of its Input node and of the completed dataflow nodes in it *)
-Producers(c) == {n \in 0..(NNodes - 1) : n # 0 /\ NodePar(n) = c /\ n \in done /\ NodeOp(n).op \notin {"Output", "Const"}}
+Producers(c) == {n \in 0..(NNodes - 1) : n # 0 /\ NodePar(n) = c /\ n \in done /\ NodeOp(n).op \notin {"Output", "Const", "Case", "FuncDefn"}}
 RegionWires(c) == UNION {{<<n, o>> : o \in 0..(Len(OutRow(n)) - 1)} : n \in Producers(c)}
 (* wires a new node in container c may take: local ones (linear ones only if unused), copyable ones of enclosing regions *)
 Usable(c) ==
   {w \in RegionWires(c) : ~(Linear(WireType(w)) /\ w \in used)}
-  \cup {w \in UNION {RegionWires(a) : a \in AncestorsB(c) \ {c}} : ~Linear(WireType(w))}
+  \cup {w \in UNION {RegionWires(a) : a \in ValueAncB(c) \ {c}} : ~Linear(WireType(w))}
 
 Init ==
   /\ nodes = <<[op |-> [op |-> "DFG", signature |-> FnT(RootInputs, <<>>)], parent |-> 0],
                [op |-> [op |-> "Input", types |-> RootInputs], parent |-> 0],
                [op |-> [op |-> "Output", types |-> <<>>], parent |-> 0]>>
-  /\ links = <<>> /\ ctxs = <<[node |-> 0, inp |-> 1, out |-> 2]>> /\ done = {1} /\ used = {} /\ calls = 0 /\ hist = <<>>
+  /\ links = <<>> /\ ctxs = <<[node |-> 0, inp |-> 1, out |-> 2, kind |-> "dfg", cond |-> -1]>> /\ pending = {}
+  /\ done = {1} /\ used = {} /\ calls = 0 /\ hist = <<>>
 
 (* `_wire_up(node, args)`: for argument i, the order edge to the sibling ancestor if the wire is non-local, then the link *)
 RECURSIVE WireUp(_, _, _, _, _)
@@ -76,11 +88,11 @@ ArgsFor(c, row) == {a \in [1..Len(row) -> Usable(c)] : (\A i \in 1..Len(row) : N
 (* add_op(op, args...) / add(op(args...)) in the context whose container is c *)
 AddOp(k, o, args) ==
   LET c == ctxs[k].node n == NNodes IN
-  /\ calls < MaxCalls /\ args \in ArgsFor(c, DfSig(o)[1])
-  /\ nodes' = Append(nodes, [op |-> o, parent |-> c])
+  /\ calls < MaxCalls
+  /\ nodes' = Append(nodes, [op |-> StripName(o), parent |-> c])
   /\ links' = WireUp(links, n, c, args, 1)
   /\ done' = done \cup {n} /\ used' = used \cup LinearArgs(args)
-  /\ calls' = calls + 1 /\ UNCHANGED ctxs
+  /\ calls' = calls + 1 /\ UNCHANGED <<ctxs, pending>>
   /\ hist' = Append(hist, [a |-> "AddOp", ctx |-> c, op |-> o.name, args |-> args])
 (* load(value): Const node, then LoadConstant node, then the static edge *)
 Load(k) ==
@@ -89,20 +101,20 @@ Load(k) ==
   /\ nodes' = nodes \o <<[op |-> [op |-> "Const", v |-> TrueV], parent |-> c],
                          [op |-> [op |-> "LoadConstant", datatype |-> BoolT], parent |-> c]>>
   /\ links' = Append(links, <<n, 0, n + 1, 0>>)
-  /\ done' = done \cup {n, n + 1} /\ calls' = calls + 1 /\ UNCHANGED <<ctxs, used>>
+  /\ done' = done \cup {n, n + 1} /\ calls' = calls + 1 /\ UNCHANGED <<ctxs, used, pending>>
   /\ hist' = Append(hist, [a |-> "Load", ctx |-> c])
 (* add_nested(args...): DFG node (inputs = argument types), its Input and Output, then the arguments are wired to it *)
 AddNested(k, args) ==
   LET c == ctxs[k].node n == NNodes
       row == [i \in 1..Len(args) |-> WireType(args[i])] IN
   /\ calls < MaxCalls /\ Len(ctxs) < MaxDepth /\ k = Len(ctxs)
-  /\ args \in UNION {[1..m -> Usable(c)] : m \in 0..2} /\ Distinct(args)
+  /\ Distinct(args)
   /\ nodes' = nodes \o <<[op |-> [op |-> "DFG", signature |-> FnT(row, <<>>)], parent |-> c],
                          [op |-> [op |-> "Input", types |-> row], parent |-> n],
                          [op |-> [op |-> "Output", types |-> <<>>], parent |-> n]>>
   /\ links' = WireUp(links, n, c, args, 1)
-  /\ ctxs' = Append(ctxs, [node |-> n, inp |-> n + 1, out |-> n + 2])
-  /\ done' = done \cup {n + 1} /\ used' = used \cup LinearArgs(args) /\ calls' = calls + 1
+  /\ ctxs' = Append(ctxs, [node |-> n, inp |-> n + 1, out |-> n + 2, kind |-> "dfg", cond |-> -1])
+  /\ done' = done \cup {n + 1} /\ used' = used \cup LinearArgs(args) /\ calls' = calls + 1 /\ UNCHANGED pending
   /\ hist' = Append(hist, [a |-> "AddNested", ctx |-> c, args |-> args])
 (* add_state_order(a, b) between two siblings, a created before b *)
 AddStateOrder(k, a, b) ==
@@ -112,32 +124,142 @@ AddStateOrder(k, a, b) ==
   /\ \A j \in 1..Len(links) : links[j] # <<a, -1, b, -1>>
   /\ LET E == {<<links[j][1], AncSibB(c, links[j][3])>> : j \in {x \in 1..Len(links) : NodePar(links[x][1]) = c}} IN
      a \notin Reach({e \in E : e[2] >= 0}, {b}, NNodes)          \* keeps the sibling graph acyclic
-  /\ links' = Append(links, <<a, -1, b, -1>>) /\ calls' = calls + 1 /\ UNCHANGED <<nodes, ctxs, done, used>>
+  /\ links' = Append(links, <<a, -1, b, -1>>) /\ calls' = calls + 1 /\ UNCHANGED <<nodes, ctxs, done, used, pending>>
   /\ hist' = Append(hist, [a |-> "AddStateOrder", ctx |-> c, x |-> a, y |-> b])
-(* set_outputs(args...) of the innermost open context: wires the Output node, completes Output and the container op *)
+(* add_conditional(cond_wire, others...): the Conditional node, then for every variant a Case node with its Input and Output
+   (all cases are created up front), then the arguments are wired to the Conditional *)
+CondRows(t) == SumRows(t)
+AddConditional(k, cw, others) ==
+  LET c == ctxs[k].node n == NNodes
+      rows == CondRows(WireType(cw))
+      orow == [i \in 1..Len(others) |-> WireType(others[i])]
+      caseNodes(i) == <<[op |-> [op |-> "Case", signature |-> FnT(rows[i] \o orow, <<>>)], parent |-> n],
+                       [op |-> [op |-> "Input", types |-> rows[i] \o orow], parent |-> n + 1 + 3 * (i - 1)],
+                       [op |-> [op |-> "Output", types |-> <<>>], parent |-> n + 1 + 3 * (i - 1)]>>
+      RECURSIVE AllCases(_) AllCases(i) == IF i > Len(rows) THEN <<>> ELSE caseNodes(i) \o AllCases(i + 1) IN
+  /\ calls < MaxCalls /\ Len(ctxs) < MaxDepth /\ k = Len(ctxs)
+  /\ IsSumT(WireType(cw)) /\ Len(rows) = 2 /\ (\A i \in 1..Len(others) : others[i] # cw) /\ Distinct(others)
+  /\ nodes' = nodes \o <<[op |-> [op |-> "Conditional", sum_rows |-> rows, other_inputs |-> orow, outputs |-> <<>>, extension_delta |-> <<>>],
+                            parent |-> c]>> \o AllCases(1)
+  /\ links' = WireUp(links, n, c, <<cw>> \o others, 1)
+  /\ pending' = pending \cup {[node |-> n + 1 + 3 * (i - 1), inp |-> n + 2 + 3 * (i - 1), out |-> n + 3 + 3 * (i - 1), kind |-> "case", cond |-> n] : i \in 1..Len(rows)}
+  /\ done' = done \cup {n + 2 + 3 * (i - 1) : i \in 1..Len(rows)}
+  /\ used' = used \cup LinearArgs(<<cw>> \o others) /\ calls' = calls + 1 /\ UNCHANGED ctxs
+  /\ hist' = Append(hist, [a |-> "AddConditional", ctx |-> c, args |-> <<cw>> \o others])
+(* add_tail_loop(just_inputs, rest): the TailLoop node (just_outputs still unknown), its Input (just_inputs ++ rest) and Output,
+   then the arguments are wired to it *)
+AddTailLoop(k, just, rest) ==
+  LET c == ctxs[k].node n == NNodes
+      jrow == [i \in 1..Len(just) |-> WireType(just[i])]
+      rrow == [i \in 1..Len(rest) |-> WireType(rest[i])] IN
+  /\ calls < MaxCalls /\ Len(ctxs) < MaxDepth /\ k = Len(ctxs)
+  /\ Distinct(just \o rest)
+  /\ nodes' = nodes \o <<[op |-> [op |-> "TailLoop", just_inputs |-> jrow, just_outputs |-> <<>>, rest |-> rrow, extension_delta |-> <<>>], parent |-> c],
+                         [op |-> [op |-> "Input", types |-> jrow \o rrow], parent |-> n],
+                         [op |-> [op |-> "Output", types |-> <<>>], parent |-> n]>>
+  /\ links' = WireUp(links, n, c, just \o rest, 1)
+  /\ ctxs' = Append(ctxs, [node |-> n, inp |-> n + 1, out |-> n + 2, kind |-> "loop", cond |-> -1])
+  /\ done' = done \cup {n + 1} /\ used' = used \cup LinearArgs(just \o rest) /\ calls' = calls + 1 /\ UNCHANGED pending
+  /\ hist' = Append(hist, [a |-> "AddTailLoop", ctx |-> c, just |-> just, rest |-> rest])
+(* define_function(name, inputs, outputs?): FuncDefn (a child of the root), its Input and Output; with declared outputs the
+   function can be called (also recursively) before it is finished *)
+FuncRows == {<<>>, <<BoolT>>, <<QubitT>>}
+Funcs == {n \in 0..(NNodes - 1) : NodeOp(n).op = "FuncDefn"}
+Callable == {f \in Funcs : f \in done}
+DefineFunction(ins, declared, outs) ==
+  LET n == NNodes IN
+  /\ calls < MaxCalls /\ Len(ctxs) < MaxDepth /\ Cardinality(Funcs) < 2
+  /\ nodes' = nodes \o <<[op |-> [op |-> "FuncDefn", name |-> "f", signature |-> [params |-> <<>>, body |-> FnT(ins, IF declared THEN outs ELSE <<>>)]], parent |-> 0],
+                         [op |-> [op |-> "Input", types |-> ins], parent |-> n],
+                         [op |-> [op |-> "Output", types |-> <<>>], parent |-> n]>>
+  /\ ctxs' = Append(ctxs, [node |-> n, inp |-> n + 1, out |-> n + 2, kind |-> IF declared THEN "funcd" ELSE "func", cond |-> -1])
+  /\ done' = done \cup {n + 1} \cup (IF declared THEN {n} ELSE {}) /\ calls' = calls + 1 /\ UNCHANGED <<links, used, pending>>
+  /\ hist' = Append(hist, [a |-> "DefineFunction", ctx |-> 0, ins |-> ins, declared |-> declared, outs |-> outs])
+(* call(f, args...): the Call node, the static edge from the function to the port after the value inputs, then the arguments *)
+CallF(k, f, args) ==
+  LET c == ctxs[k].node n == NNodes body == NodeOp(f).signature.body IN
+  /\ calls < MaxCalls /\ f \in Callable
+  /\ nodes' = Append(nodes, [op |-> [op |-> "Call", func_sig |-> NodeOp(f).signature, type_args |-> <<>>, instantiation |-> body], parent |-> c])
+  /\ links' = WireUp(Append(links, <<f, 0, n, Len(body.input)>>), n, c, args, 1)
+  /\ done' = done \cup {n} /\ used' = used \cup LinearArgs(args) /\ calls' = calls + 1 /\ UNCHANGED <<ctxs, pending>>
+  /\ hist' = Append(hist, [a |-> "Call", ctx |-> c, f |-> f, args |-> args])
+(* load_function(f): the LoadFunction node and the static edge *)
+LoadF(k, f) ==
+  LET c == ctxs[k].node n == NNodes body == NodeOp(f).signature.body IN
+  /\ calls < MaxCalls /\ f \in Callable
+  /\ nodes' = Append(nodes, [op |-> [op |-> "LoadFunction", func_sig |-> NodeOp(f).signature, type_args |-> <<>>, instantiation |-> body], parent |-> c])
+  /\ links' = Append(links, <<f, 0, n, 0>>)
+  /\ done' = done \cup {n} /\ calls' = calls + 1 /\ UNCHANGED <<ctxs, used, pending>>
+  /\ hist' = Append(hist, [a |-> "LoadFunction", ctx |-> c, f |-> f])
+(* add_case(i): start building one of the cases *)
+AddCase(p) ==
+  /\ calls < MaxCalls /\ p \in pending /\ Len(ctxs) < MaxDepth + 1
+  /\ NodePar(p.cond) = ctxs[Len(ctxs)].node                       \* the conditional lives in the innermost open region
+  /\ ctxs' = Append(ctxs, p) /\ pending' = pending \ {p} /\ calls' = calls + 1
+  /\ UNCHANGED <<nodes, links, done, used>>
+  /\ hist' = Append(hist, [a |-> "AddCase", ctx |-> p.cond, i |-> (p.node - p.cond - 1) \div 3])
+(* set_outputs(args...) of the innermost open context: wires the Output node, completes Output and the container op;
+   for a case also the Conditional: the first case fixes its outputs, every later one must produce the same row *)
 SetOutputs(args) ==
-  LET k == Len(ctxs) c == ctxs[k].node out == ctxs[k].out
+  LET k == Len(ctxs) cx == ctxs[k] c == cx.node out == cx.out
       row == [i \in 1..Len(args) |-> WireType(args[i])]
-      leftover == {w \in RegionWires(c) : Linear(WireType(w)) /\ w \notin used} IN
+      leftover == {w \in RegionWires(c) : Linear(WireType(w)) /\ w \notin used}
+      isCase == cx.kind = "case"
+      isLoop == cx.kind = "loop"
+      isFunc == cx.kind \in {"func", "funcd"}
+      ctl == SumRows(row[1])                                        \* loop only: the rows of the controlling sum
+      condOuts == IF isCase THEN NodeOp(cx.cond).outputs ELSE <<>>
+      firstCase == isCase /\ (\A q \in 0..(NNodes - 1) : (NodePar(q) = cx.cond) => q \notin done)
+      siblingsOpen == {p \in pending : p.cond = cx.cond}
+      condDone == isCase /\ siblingsOpen = {} /\ \A q \in 0..(NNodes - 1) : (NodePar(q) = cx.cond /\ q # c) => q \in done IN
   /\ calls < MaxCalls
-  /\ args \in UNION {[1..m -> Usable(c)] : m \in 0..2} /\ Distinct(args)
+  /\ Distinct(args)
   /\ leftover \subseteq LinearArgs(args)                           \* every linear value of the region is consumed
-  /\ nodes' = [nodes EXCEPT ![out + 1].op.types = row, ![c + 1].op.signature.output = row]
+  /\ (cx.kind = "funcd") => NormRow(row) = NormRow(NodeOp(c).signature.body.output)     \* declared outputs are matched
+  /\ isLoop => /\ Len(args) >= 1 /\ IsSumT(row[1]) /\ Len(ctl) = 2
+               /\ NormRow(ctl[1]) = NormRow(NodeOp(c).just_inputs)          \* continue variant = just_inputs
+               /\ NormRow(Tail(row)) = NormRow(NodeOp(c).rest)               \* the remaining outputs are the rest row
+  /\ \A p \in pending : NodePar(p.cond) # c                        \* no conditional of this region has unbuilt cases
+  /\ (isCase /\ ~firstCase) => NormRow(row) = NormRow(condOuts)   \* cases agree on their outputs
+  /\ nodes' = IF isCase
+                THEN [nodes EXCEPT ![out + 1].op.types = row, ![c + 1].op.signature.output = row, ![cx.cond + 1].op.outputs = row]
+                ELSE IF isLoop THEN [nodes EXCEPT ![out + 1].op.types = row, ![c + 1].op.just_outputs = ctl[2]]
+                ELSE IF isFunc THEN [nodes EXCEPT ![out + 1].op.types = row, ![c + 1].op.signature.body.output = row]
+                ELSE [nodes EXCEPT ![out + 1].op.types = row, ![c + 1].op.signature.output = row]
   /\ links' = WireUp(links, out, c, args, 1)
-  /\ done' = done \cup {out, c} /\ used' = used \cup LinearArgs(args)
-  /\ ctxs' = SubSeq(ctxs, 1, k - 1) /\ calls' = calls + 1
+  /\ done' = done \cup {out, c} \cup (IF condDone THEN {cx.cond} ELSE {})
+  /\ used' = used \cup LinearArgs(args)
+  /\ ctxs' = SubSeq(ctxs, 1, k - 1) /\ calls' = calls + 1 /\ UNCHANGED pending
   /\ hist' = Append(hist, [a |-> "SetOutputs", ctx |-> c, args |-> args])
 
+(* Arguments always range over Usable(container): well-formed programs only (see the header). WiresUpTo(U, m) = sequences of <= m wires *)
+WiresUpTo(U, m) == UNION {[1..j -> U] : j \in 0..m}
 Next ==
-  \/ \E k \in 1..Len(ctxs), o \in Alphabet : \E args \in ArgsFor(ctxs[k].node, DfSig(o)[1]) : AddOp(k, o, args)
-  \/ \E k \in 1..Len(ctxs) : Load(k)
-  \/ \E k \in 1..Len(ctxs) : \E args \in UNION {[1..m -> Usable(ctxs[k].node)] : m \in 0..2} : AddNested(k, args)
-  \/ \E k \in 1..Len(ctxs), a, b \in 0..(NNodes - 1) : AddStateOrder(k, a, b)
-  \/ Len(ctxs) >= 1 /\ \E args \in UNION {[1..m -> Usable(ctxs[Len(ctxs)].node)] : m \in 0..2} : SetOutputs(args)
+  /\ calls < MaxCalls
+  /\ \/ \E k \in 1..Len(ctxs), o \in {x \in Alphabet : x.name \in Ops} : \E args \in ArgsFor(ctxs[k].node, DfSig(o)[1]) : AddOp(k, o, args)
+     \/ "load" \in Features /\ \E k \in 1..Len(ctxs) : Load(k)
+     \/ "order" \in Features /\ \E k \in 1..Len(ctxs), a, b \in 0..(NNodes - 1) : AddStateOrder(k, a, b)
+     \/ Len(ctxs) >= 1 /\ Len(ctxs) < MaxDepth /\
+          LET k == Len(ctxs) U == Usable(ctxs[k].node) IN
+          \/ "nested" \in Features /\ \E args \in WiresUpTo(U, 2) : AddNested(k, args)
+          \/ "cond" \in Features /\ \E cw \in {w \in U : IsSumT(WireType(w))} : \E others \in WiresUpTo(U, 1) : AddConditional(k, cw, others)
+          \/ "loop" \in Features /\ \E just \in WiresUpTo(U, 1) : \E rest \in WiresUpTo(U, 2) : AddTailLoop(k, just, rest)
+     \/ \E p \in pending : AddCase(p)
+     \/ "func" \in Features /\ Len(ctxs) < MaxDepth /\ \E ins \in FuncRows : \E d \in BOOLEAN : \E outs \in (IF d THEN FuncRows ELSE {<<>>}) : DefineFunction(ins, d, outs)
+     \/ "func" \in Features /\ \E k \in 1..Len(ctxs), f \in Callable : \/ \E args \in ArgsFor(ctxs[k].node, NodeOp(f).signature.body.input) : CallF(k, f, args)
+                                                                      \/ LoadF(k, f)
+     \/ Len(ctxs) >= 1 /\ ctxs[Len(ctxs)].kind # "loop" /\ \E args \in WiresUpTo(Usable(ctxs[Len(ctxs)].node), 2) : SetOutputs(args)
+     \/ Len(ctxs) >= 1 /\ ctxs[Len(ctxs)].kind = "loop" /\
+          LET c == ctxs[Len(ctxs)].node IN
+          \E s \in {w \in Usable(c) : IsSumT(WireType(w))} : \E r \in ArgsFor(c, NodeOp(c).rest) : SetOutputs(<<s>> \o r)
 Spec == Init /\ [][Next]_bvars
+(* bounded exploration only: a program that can no longer be finished within MaxCalls calls (every open context needs its
+   set_outputs, every unbuilt case an add_case and a set_outputs) is not extended; no finished program of <= MaxCalls calls is lost *)
+CanFinish == calls + Len(ctxs) + 2 * Cardinality(pending) <= MaxCalls
+NextB == Next /\ CanFinish'
 
 (* ---- the document a finished program serializes to ---- *)
-Finished == ctxs = <<>>
+Finished == ctxs = <<>> /\ pending = {}
 WOff(n, o, dir) == IF o = -1 THEN OrderOffset(NodeOp(n), dir) ELSE o
 Doc == [nodes |-> [k \in 1..NNodes |-> [parent |-> nodes[k].parent] @@ nodes[k].op],
         edges |-> [j \in 1..Len(links) |-> <<<<links[j][1], WOff(links[j][1], links[j][2], "out")>>,
